@@ -872,6 +872,8 @@ func validFile(rng *rand.Rand, large bool) []byte {
 func interesting(data []byte) (fields []int, values []uint32) {
 	f := rt.DecodeV1(data)
 	fields = append(fields, 28, int(f.HdrLen))
+	// the top of the uint32 range: off+8, off+12, off+16 wrap around to the start of the file
+	values = append(values, 0xfffffff0, 0xfffffff4, 0xfffffff7, 0xfffffff8, 0xfffffffc, 0xfffffffe, 0xffffffef)
 	values = append(values, 0, 1, 5, 31, 32, 33, f.HdrLen, f.HdrLen+32, f.HdrLen+4, f.Limit, uint32(len(data)), uint32(len(data))-8, uint32(len(data))-16,
 		uint32(len(data))+32, 0xffffffff, 0x80000000, page, page-32)
 	for _, r := range f.Records {
@@ -913,6 +915,16 @@ func genInput(seed int64, i int) (string, []byte) {
 	}
 	data := validFile(rng, false)
 	fields, values := interesting(data)
+	if k >= 31 && k < 33 {
+		// file size as damage: hundreds of (sparse) pages, with a link or length field overwritten
+		data = append(data, make([]byte, page*([]int{405, 469, 1023, 300}[rng.Intn(4)]+rng.Intn(2)))...)
+		for j := 1 + rng.Intn(2); j > 0; j-- {
+			if at := fields[rng.Intn(len(fields))]; at+4 <= len(data) {
+				le.PutUint32(data[at:], values[rng.Intn(len(values))])
+			}
+		}
+		return "bigfile", data
+	}
 	switch {
 	case k < 50: // bit flips where structure lives
 		f := rt.DecodeV1(data)
